@@ -225,8 +225,9 @@ def run(c):
             t = threading.Thread(target=replay, args=(v, dump, stride, box))
             t.start()
             pending.append((t, box, dump))
-            if v["fixed"]:
+            if v["fixed"] and (th or v["tag"] == "reorg"):
                 # the same graph with the Fix* switches on: the strict reading of the statement must hold there
+                # (the repaired design; thorough tier, and the small reorg graph in the quick tier)
                 name, files = mc_files(v, depth, FIX_ON, ["Inv", "StrictInv"], dump=False)
                 r = c.tlc("pool", name + ".cfg", module=name, files=files, timeout=3000,
                           tag="MC_TxPool %s depth=%d Fix* on, StrictInv" % (v["tag"], depth))
